@@ -9,6 +9,7 @@
 -/
 import ICal.Lemmas.StartEnd
 import ICal.Lemmas.BodiesSE
+import ICal.Lemmas.BodiesSEFull
 namespace ICal.C16
 open ICal.SE
 
@@ -435,5 +436,27 @@ theorem body_event_end (st en : Option SE.Val) (du : Option Int) :
 
 theorem body_todo_end (st en : Option SE.Val) (du : Option Int) :
     Gen.BodiesSE.Todo_end (start := st) (end_ := en) (duration := du) = Bodies.liftSE (SE.endOf st en du) := Bodies.Todo_end_eq st en du
+
+/-! ### the checks, `.start`, `.end`, `.duration` as regenerated (wave 5)
+
+`Bodies.seSedP` / `seStartP` / `seEndP` / `seDurationP` are the translated `_get_start_end_duration`, `start`, `end` (calling
+the translated checks) and `duration` of Event / Todo with the pieces of ICal/Model/SEPieces.lean: the descriptors are the
+model's `getProp` / `getDur` of the stored slots, `end - start` is the model's `Val.sub`. -/
+
+theorem body_get_start_end_duration (c : SE.Cls) (hc : Bodies.seHasEnd c = true) (s : SE.St) :
+    Bodies.seSedP c (Bodies.seLift (SE.getProp s.dtstart)) (Bodies.seLift (SE.getProp (s.get (SE.endKey c)))) (Bodies.seLift (SE.getDur s.duration)) =
+      Bodies.seLift (SE.getSED c s) := Bodies.sed_eq c hc s
+
+theorem body_start (c : SE.Cls) (hc : Bodies.seHasEnd c = true) (s : SE.St) :
+    Bodies.seStartP c (Bodies.seLift (SE.getProp s.dtstart)) (Bodies.seLift (SE.getProp (s.get (SE.endKey c)))) (Bodies.seLift (SE.getDur s.duration)) =
+      Bodies.seLift (SE.getStart c s) := Bodies.start_eq_se c hc s
+
+theorem body_end_full (c : SE.Cls) (hc : Bodies.seHasEnd c = true) (s : SE.St) :
+    Bodies.seEndP c (Bodies.seLift (SE.getProp s.dtstart)) (Bodies.seLift (SE.getProp (s.get (SE.endKey c)))) (Bodies.seLift (SE.getDur s.duration)) =
+      Bodies.seLift ((SE.getEnd c s).map some) := Bodies.end_eq_se c hc s
+
+theorem body_duration (p : SE.Prov) (c : SE.Cls) (hc : Bodies.seHasEnd c = true) (s : SE.St) :
+    Bodies.seDurationP p c (Bodies.seLift (SE.getProp s.dtstart)) (Bodies.seLift (SE.getProp (s.get (SE.endKey c)))) (Bodies.seLift (SE.getDur s.duration)) =
+      Bodies.seLift (SE.getDuration p c s) := Bodies.duration_eq_se p c hc s
 
 end ICal.C16
